@@ -516,8 +516,13 @@ def build(F: Facts, g: Optional[Grammar] = None) -> LexModel:
         rm = RuleModel(r, p, language(p), can_contain(p, '\n'))
         if r.func is not None:
             fi = FuncInfo(spec.module.name + '.t_' + r.name, spec.module, r.func, captured=r.closure)
-            rm.paths = SymExec(F, fi).run()
             tparam = ('param', r.func.args.args[0].arg) if r.func.args.args else None
+            ov_ = None
+            if rm.texts is not None and len(rm.texts) == 1 and tparam is not None and not any(
+                    isinstance(n_, ast.Attribute) and n_.attr == 'value' and isinstance(n_.ctx, ast.Store) for n_ in ast.walk(r.func)):
+                # the rule matches one fixed text and never re-assigns t.value: t.value is that text throughout
+                ov_ = {('attr', tparam, 'value'): ('const', next(iter(rm.texts)))}
+            rm.paths = SymExec(F, fi, overrides=ov_).run()
             rets = []
             for pth in rm.paths:
                 if pth.outcome[0] == 'return':
